@@ -190,7 +190,7 @@ H(name="c18_public_wrapper", crate="kestrel-crypto", props=["C18", "C02", "C15"]
   desc="kestrel_crypto::scrypt(password, salt, n, r, p, len) forwards all six arguments unchanged, in order, u32 -> usize zero-extended",
   funcs=["scrypt (lib.rs wrapper)"], bounds="all u32 n, r, p; len 0..8", env=["scrypt::scrypt recorder"], outside="")
 
-H(name="c18_ffi_scrypt", crate="kestrel-ffi", mod="verif_ffi", props=["C18"], est_s=60, replay="model",
+H(name="c18_ffi_scrypt", crate="kestrel-ffi", mod="verif_ffi", props=["C18"], est_s=60, replay="model", trust_alloc_checks=True,
   desc="exported C scrypt(): (password, len, salt, len, N, r, p) forwarded unchanged and in order to kestrel_crypto::scrypt (also for empty password/salt); exactly dk_len bytes = the derived key are written at derived_key; guard bytes on both sides untouched",
   funcs=["kestrel_ffi::scrypt (extern \"C\")", "kestrel_crypto::scrypt"], bounds="password/salt 0..4 bytes, all u32 N/r/p, dk_len 1..8", env=["kestrel_crypto::scrypt::scrypt recorder"], outside="NULL pointers with length 0 (from_raw_parts precondition is the caller's, per the header)")
 
